@@ -207,3 +207,5 @@ import props_c18
 import props_c19
 props_c18.register(_sys.modules[__name__])
 props_c19.register(_sys.modules[__name__])
+__import__("props_c04").register(_sys.modules[__name__])
+__import__("props_c12").register(_sys.modules[__name__])
